@@ -131,4 +131,5 @@ partial def loop (stdin stdout : IO.FS.Stream) (w : World) (i : Nat := 0) : IO U
 def main : IO Unit := do
   let stdin ← IO.getStdin
   let stdout ← IO.getStdout
-  loop stdin stdout {}
+  -- the `_system` schema exists from the start (the service migrates it at boot)
+  loop stdin stdout (instantiateBucket {} Ledger.Generated.Schema.system "_system")
